@@ -222,6 +222,12 @@ def run(c, chk):
     thorough = chk.tier == 'thorough'
     flag_reaches_sections(c, chk)
     skipped_item_leaves_nothing(c, chk)
+    if not isinstance(chk, report.SubCheck):
+        # R12.13: a refused text (an undeclared name without the flag) leaves nothing behind that makes a later text with the flag
+        # fail: no counter or level kept in a static outside the reset disciplines (rule R8.0 of C08)
+        from . import c08 as _c08g
+        chk.rule('R12.13', 'no scanner or parser state outlives a refused text: every mutable global falls under a reset discipline (rule R8.0 of C08)')
+        _c08g.classified_globals(c, chk, rid='R12.13', rid5='R12.13')
     depth, width = (2, 2)
     # which states form the skipper: reachable from the unknown-name arm of state 0
     entry = None
